@@ -231,7 +231,7 @@ Proof.
   unfold serve_conn in H.
   destruct (c_first cn) as [c|]; [|inversion H; subst; destruct Hin].
   destruct (Z.eqb c DC_AUTHENTICATE).
-  - destruct (s_default (c_srv cn)); [|inversion H; subst; destruct Hin].
+  - destruct (s_default (c_srv cn)) as [d0|]; [|inversion H; subst; destruct Hin].
     destruct (handshake k (c_hs cn)) as [k1 [cs|]]; [|inversion H; subst; destruct Hin].
     inversion H; subst.
     pose proof (auth_loop_good _ _ _ _ _ _ _ H2) as G.
@@ -254,7 +254,7 @@ Proof.
   destruct (c_first cn) as [c|]; [|inversion H; subst; destruct Hin].
   exists c. split; [reflexivity|].
   destruct (Z.eqb c DC_AUTHENTICATE).
-  - destruct (s_default (c_srv cn)); [|inversion H; subst; destruct Hin].
+  - destruct (s_default (c_srv cn)) as [d0|]; [|inversion H; subst; destruct Hin].
     destruct (handshake k (c_hs cn)) as [k1 [cs|]]; [|inversion H; subst; destruct Hin].
     inversion H; subst.
     pose proof (auth_loop_good _ _ _ _ _ _ _ H2) as G.
@@ -280,7 +280,7 @@ Proof.
   { unfold serve_conn in H.
     destruct (c_first cn) as [c0|]; [|inversion H; subst; exact I].
     destruct (Z.eqb c0 DC_AUTHENTICATE).
-    - destruct (s_default (c_srv cn)); [|inversion H; subst; exact I].
+    - destruct (s_default (c_srv cn)) as [d0|]; [|inversion H; subst; exact I].
       destruct (handshake k (c_hs cn)) as [k1 [cs|]]; [|inversion H; subst; exact I].
       inversion H; subst. eapply auth_loop_refusals_final; eauto.
     - inversion H; subst. eapply raw_path_good; eauto. }
@@ -310,7 +310,7 @@ Proof.
   intros k cn k' ds e H. unfold serve_conn in H.
   destruct (c_first cn) as [c|]; [|inversion H; auto].
   destruct (Z.eqb c DC_AUTHENTICATE) eqn:Ec.
-  - destruct (s_default (c_srv cn)); [|inversion H; auto].
+  - destruct (s_default (c_srv cn)) as [d0|]; [|inversion H; auto].
     destruct (handshake k (c_hs cn)) as [k1 [cs|]] eqn:Hs; [|inversion H; auto].
     inversion H; subst. right. exists c. split; auto. rewrite Ec.
     exists (n_cmd (cs_neg cs)). split; [|eapply auth_loop_cmds; eauto].
@@ -321,7 +321,7 @@ Proof.
     + inversion Hs; subst. reflexivity.
     + destruct (cache_lookup k s) as [en|]; [|inversion Hs].
       destruct io; [|inversion Hs]. inversion Hs; subst.
-      unfold resume in H3. destruct (e_key en); inversion H3; subst; reflexivity.
+      unfold resume in H3. destruct (usable_key (e_key en)); inversion H3; subst; reflexivity.
   - inversion H; subst. right. exists c. split; auto. rewrite Ec.
     eapply raw_path_good; eauto.
 Qed.
@@ -330,16 +330,19 @@ Qed.
 
 Theorem resume_restores : forall en s c cs,
   resume en s c = Some cs ->
+  e_key en = KAes /\
   n_cmd (cs_neg cs) = c /\ n_sid (cs_neg cs) = s /\
   n_authn (cs_neg cs) = e_authn en /\ n_user (cs_neg cs) = e_user en /\
   cs_auth_real cs = e_auth_real en /\
-  (cs_enc_real cs = true <-> e_key en = KAes) /\
-  (n_enc (cs_neg cs) = true <-> (e_key en = KAes \/ e_key en = KAesEmpty)).
+  n_enc (cs_neg cs) = true /\ cs_enc_real cs = true /\ n_resumed (cs_neg cs) = true.
 Proof.
   intros en s c cs H. unfold resume in H.
-  destruct (e_key en) eqn:K; inversion H; subst; cbn; repeat split; auto;
-    try discriminate; try (intros [?|?]; discriminate).
+  destruct (e_key en) eqn:K; cbn in H; inversion H; subst; cbn; repeat split; auto.
 Qed.
+
+(* a session without a usable key is never resumed *)
+Theorem resume_needs_key : forall en s c, e_key en <> KAes -> resume en s c = None.
+Proof. intros en s c H. unfold resume. destruct (e_key en); cbn; congruence. Qed.
 
 (* ---- reported = real, carried through the cache and the loop -------------------------------- *)
 
@@ -363,14 +366,14 @@ Qed.
 
 Lemma entry_of_full_faithful : forall r, full_faithful r -> entry_faithful (entry_of_full r).
 Proof.
-  intros r [Fa Fe]. unfold entry_faithful, entry_of_full; cbn. split; auto.
-  destruct (f_haskey r); discriminate.
+  intros r [Fa Fe]. unfold entry_faithful, entry_of_full; cbn. auto.
 Qed.
 
 Lemma resume_faithful : forall en s c cs, entry_faithful en -> resume en s c = Some cs -> cs_faithful cs.
 Proof.
-  intros en s c cs [Fa Fk] H. unfold resume in H.
-  destruct (e_key en) eqn:K; inversion H; subst; unfold cs_faithful; cbn; split; auto; try discriminate; try congruence.
+  intros en s c cs Fa H. unfold resume in H.
+  destruct (usable_key (e_key en)); [|discriminate].
+  inversion H; subst; unfold cs_faithful; cbn; split; auto.
 Qed.
 
 Lemma handshake_faithful : forall k h k' ocs,
@@ -410,7 +413,7 @@ Proof.
   intros k cn k' ds e Fk Fh H. unfold serve_conn in H.
   destruct (c_first cn) as [c|]; [|inversion H; subst; split; [auto|intros i []]].
   destruct (Z.eqb c DC_AUTHENTICATE).
-  - destruct (s_default (c_srv cn)); [|inversion H; subst; split; [auto|intros i []]].
+  - destruct (s_default (c_srv cn)) as [d0|]; [|inversion H; subst; split; [auto|intros i []]].
     destruct (handshake k (c_hs cn)) as [k1 ocs] eqn:Hs.
     destruct (handshake_faithful _ _ _ _ Fk Fh Hs) as [Fk1 Fcs].
     destruct ocs as [cs|]; [|inversion H; subst; split; [auto|intros i []]].
